@@ -1044,3 +1044,40 @@ Proof.
   intros until k2. intros summary I1 I2. unfold summary in *. rewrite keys_save_optimised in *.
   destruct (naming_all_of_shape run k1 k2) as (A & B & C & D & E); eauto 6 using ids_optimised_shape.
 Qed.
+
+(* ------------------------------------------------------------------------------------------------------------ *)
+(* source literals: the model's functions are what the literals of the Go source (the Saver.src_ constants) denote *)
+
+Lemma clone_id_src : forall name R r,
+  sprintf src_clone_id_format [FS name; FD r; FD R] = Some (name ++ " " ++ frac r R)
+  /\ clone_id name R r = if (1 <? R)%nat then name ++ " " ++ frac r R else name.
+Proof. intros. split; reflexivity. Qed.
+
+Lemma member_id_src : forall run k n, sprintf src_member_id_format [FS run; FD k; FD n] = Some (member_id run k n).
+Proof. intros. reflexivity. Qed.
+
+Lemma as_is_id_src : forall run, as_is_id run = run ++ src_as_is_suffix /\ as_is_id run = run ++ src_optimised_as_is_suffix.
+Proof. intros. split; reflexivity. Qed.
+
+Lemma optimised_id_src : forall run, optimised_id run = run ++ src_optimised_suffix.
+Proof. reflexivity. Qed.
+
+Lemma row_label_src : forall id,
+  row_label id = if contains src_label_pat1 id then src_label_1
+                 else if contains src_label_pat2 id then src_label_2
+                 else replace_char "/" src_label_sep (last (find_all_frac id) src_label_default).
+Proof. reflexivity. Qed.
+
+Lemma set_id_src : forall key,
+  regex_lit_dots_rparen "Solution (" = src_set_id_regex
+  /\ set_id key = per_line (replace_lit_dots_rparen "Solution (" src_set_id_replacement) key.
+Proof. intros. split; reflexivity. Qed.
+
+Lemma file_stem_src : forall key,
+  regex_lit_dots_rparen "Solution(" = src_file_stem_regex
+  /\ file_stem key = replace_char "/" "_of_" (per_line (replace_lit_dots_rparen "Solution(" "") (remove_char " " key))
+  /\ src_file_stem_lits = [" "; ""; regex_lit_dots_rparen "Solution("; ""; "/"; "_of_"].
+Proof. intros. repeat split; reflexivity. Qed.
+
+Lemma json_set_name_src : "(.*)" ++ " Solution" ++ ".*" = src_json_name_regex.
+Proof. reflexivity. Qed.
